@@ -49,4 +49,16 @@ def runOld (cfg : Cfg) : St → List Label → Option St
     | none => none
     | some (s1, _) => runOld cfg s1 ls
 
+/-! ## what-if: `Cleaner.AddBucket` NOT atomic (generation read and bucket appended under the lock, `SetGeneration`
+after the unlock).  Not the code in /repo - used only to show why the model's `newCache` must be, and the source's
+`AddBucket` is, one critical section (`c18_addbucket_must_be_atomic`). -/
+
+/-- first half: `gen := c.lastGen; c.buckets = append(c.buckets, b)` -/
+def addBucketAppend (s : St) : St × Nat :=
+  ({ s with ncaches := s.ncaches + 1, relL := mset false s.relL s.ncaches false, buckets := s.buckets ++ [s.ncaches] },
+   s.lastGen)
+
+/-- second half, after the unlock: `b.SetGeneration(gen)` -/
+def addBucketSetGen (s : St) (c gen : Nat) : St := { s with curL := mset 0 s.curL c gen }
+
 end SV.Cache
